@@ -724,7 +724,8 @@ def gen_C07(o, rng, tier):
 def gen_C08(o, rng, tier):
     nu = 3 if tier == "quick" else 4
     u = list(range(nu))
-    caps = [(3, 3), (3, 4), (4, 3)] if tier == "quick" else [(4, 4), (4, 6), (6, 4)]
+    caps = [(3, 3), (3, 4), (4, 3), (0, 3), (3, 0), (0, 0), (1, 2)] if tier == "quick" else \
+        [(4, 4), (4, 6), (6, 4), (0, 4), (4, 0), (0, 0), (1, 3), (3, 1)]
     scripts = ["hnhnhnhnhnhnhn", "cf", "hnhcnhf", "x", "dnnDn", "nnhx"]
     for (c0, c1) in caps:
         for a in layouts(min(c0, nu), u):
@@ -1038,6 +1039,13 @@ def gen_C16(o, rng, tier):
                     o.op(f"s1 extend {pulls} [{zs}]", test=True)
                     o.op(f"s1 extend {pulls} [{ws}]", test=True)
                     o.end()
+    # extending sets that already hold 4..9 elements (block-wise duplicate scans)
+    def ext(reg, u):
+        L = len(u) - 1
+        seqs = [[L], [0, L], [L, L], [3, L, 0], [L, 2, L, 3], [1, 2, 3, 0], [L, 3, 3, L]]
+        return [f"{reg} extend {p} [" + ",".join(f"{{k{c}}}" for c in sq) + "]" for sq in seqs for p in (1, 3)]
+    wide_set_product(o, ext, suffix=lambda o, u, lay: (
+        o.op("s0 len"), o.op("s0 iter " + "n" * (len(lay) + 3)), [o.op(f"s0 contains q:{c}#0") for c in u]))
 
 
 def gen_C17(o, rng, tier):
